@@ -122,7 +122,7 @@ def run_cases(cases, target, nworkers=None, python=None, timeout=20.0, batch=1, 
                     continue
                 if w is None:
                     w = _Worker(cmd, env)
-                res, reason = w.request({'batch': b}, timeout * len(b))
+                res, reason = w.request({'batch': b}, timeout + 1.5 * len(b))
                 if res is None:
                     w.kill()
                     w = None
